@@ -97,7 +97,10 @@ def inv(m):
     """
     # check that matrix is square:
     if _USE_NUMPY_LINALG_INV:
-        invm = np.linalg.inv(np.array(m).astype(_MAX_LINALG_TYPE))
+        m = np.array(m).astype(_MAX_LINALG_TYPE)
+        if not np.all(np.isfinite(m)):
+            raise np.linalg.LinAlgError("Input matrix must be finite.")
+        invm = np.linalg.inv(m)
         # detect singularity:
         if not np.all(np.isfinite(invm)):
             raise np.linalg.LinAlgError('Singular matrix.')
